@@ -824,7 +824,7 @@ class G:
         if cfg.use_int and self.paths(is_int):
             opts += ["icmp"] * 4
         if cfg.use_char and self.paths(lambda t: t == CHAR):
-            opts += ["ccmp"]
+            opts += ["ccmp", "ordcmp"]
         if cfg.use_fixed and self.paths(lambda t: t[0] == "fixed"):
             opts += ["fcmp"] * 2
         tup_bools = self.paths(lambda t: is_tuple(t) and all(x == BOOL for x in elem_types(t)))
@@ -894,6 +894,15 @@ class G:
             else:
                 r = self.pick(self.paths(lambda t: t == CHAR))
             return ["cmp", op, l, r]
+        if k == "ordcmp":
+            # ord() of a char compared (== / !=, the only comparisons chars support) with a constant or another ord()
+            l = ["call", "ord", [self.pick(self.paths(lambda t: t == CHAR))]]
+            if self.chance(65):
+                r = ["k", self.draw(st.sampled_from([0, 1, 3, 7, 32, 48, 65, 97, 122, 127, 200, 255]))]
+            else:
+                r = ["call", "ord", [self.pick(self.paths(lambda t: t == CHAR))]]
+            pair = [l, r] if self.chance(70) else [r, l]
+            return ["cmp", self.pick(["==", "!="]), pair[0], pair[1]]
         if k == "fcmp":
             l = self.gen_fixed(d - 1, None)
             lt = Renderer(False).expr(l, self.env)[1]
@@ -1048,6 +1057,9 @@ class G:
 
     def gen_char(self, d):
         ps = self.paths(lambda t: t == CHAR)
+        narrow = [p_ for p_ in self.paths(is_int) if _typeof(p_, self.env)[1] < 8 and _root(p_) not in self.pyint]
+        if narrow and self.chance(25):
+            return ["call", "chr", [self.pick(narrow)]]
         if ps and self.chance(70):
             return self.pick(ps)
         if d > 0 and ps and self.chance(50):
@@ -1335,7 +1347,7 @@ def program(draw, cfg=None, ret=None, name="f", args=None, fns=None, params=()):
         kind = g.pick(list(cfg.ret_kinds))
         if kind == "int" and cfg.use_int:
             ret = ["int", g.pick([2, 4, 4, 3, 6, 8])]
-        elif kind == "char" and cfg.use_char and g.paths(lambda t: t == CHAR):
+        elif kind == "char" and cfg.use_char and (g.paths(lambda t: t == CHAR) or g.paths(is_int)):
             ret = CHAR
         elif kind == "fixed" and cfg.use_fixed and g.paths(lambda t: t[0] == "fixed"):
             ret = g.pick([_typeof(p_, env) for p_ in g.paths(lambda t: t[0] == "fixed")])
